@@ -1087,7 +1087,8 @@ def run(ctx):
         "light cone: all sequences <=3 gates on n<=3 x every qubit subset, random n<=6 depth<=30: model cone == real cone and qubit_map, split checks, "
         "exact reduced states on integer product states, float circuits from |0..0> (1e-10), Lean simulator + partial trace vs real cone")
     ctx.assumptions += [
-        "trace equivalence of the fusion algorithm's output for ALL inputs is not proved (T07_fuse_trace_full is a visible def); it is decided by the proved decision procedure on the model's and the real output of every generated circuit",
+        "the theorems are about the Lean transliteration QV/Model/Fusion.lean of Circuit.fuse / FusedGate.fuse / matrix_fused / light_cone; it is tied to the code by exact comparison of fused queues, fused matrices, cones and qubit maps on every generated circuit, and the real output is independently certified by the proved decision procedure for ~t",
+        "measurements and callbacks enter the theorems as items of the queue (barriers on their qubits / on all qubits) that commute with gates on other qubits; their effect on the state (collapse, callback value) is exercised by the search only",
         "re-indexing of the light-cone circuit by qubit_map is covered by C05's relabelling theorem (T05_relabel_run) and exercised by the correspondence",
         "Circuit.unitary() of a fused circuit (DESIGN F18) belongs to C01/C06 and is not examined here",
         "collapsing measurements (random outcomes) are outside the generated circuits; measurements are terminal on their qubits",
